@@ -61,6 +61,15 @@ def recipe(c: Check):
                 c.broken.append(dict(kind="coverage", name="driver xtcp never reached event %s" % k, detail=str(cnt5)))
         if st5.get("distribution", {}).get("requests_for_closed_proxy", 0) <= 0:
             c.broken.append(dict(kind="coverage", name="driver xtcp sent no request for a closed proxy", detail=""))
+    # an xtcp registration made through a real server.Control over a pipe, slow NewProxy plugin, owner disconnects
+    st7 = c.run_driver("ownerctl", q(c.tier, 6, 30), shards=1)
+    cnt7 = c.cov.get("coq_counters", {}).get("ownerctl", {})
+    if st7 is not None and cnt7:
+        for k in ("NOWNERNEWPROXY", "NOWNERCTLEND"):
+            if cnt7.get(k, 0) <= 0:
+                c.broken.append(dict(kind="coverage", name="driver ownerctl never reached %s" % k, detail=str(cnt7)))
+        if st7.get("distribution", {}).get("owner_gone_during_registration", 0) <= 0:
+            c.broken.append(dict(kind="coverage", name="driver ownerctl: no disconnect during a registration", detail=""))
     # the real transport.NewMessageTransporter: Send never drops (differential) + both parties answered despite a backlog
     st6 = c.run_driver("backlog", q(c.tier, 60, 400), shards=1)
     cnt6 = c.cov.get("coq_counters", {}).get("backlog", {})
@@ -69,9 +78,11 @@ def recipe(c: Check):
             if cnt6.get(k, 0) <= 0:
                 c.broken.append(dict(kind="coverage", name="driver backlog never observed %s" % k, detail=str(cnt6)))
     # OBSERVATION (runtime residue): real MakeHole for both roles over loopback UDP, instructions from the real Controller
-    st3 = c.run_driver("rendezvous", 1, coq=False, timeout=q(c.tier, 120, 600))
+    st3 = c.run_driver("rendezvous", 1, coq=False, timeout=q(c.tier, 300, 900))
     if st3 is not None:
         d = st3.get("distribution", {})
+        if d.get("keyless_pairs_found_each_other", 0) <= 0 and not any(k.endswith("_FAILED") for k in d):
+            c.broken.append(dict(kind="coverage", name="driver rendezvous ran no key-less pair", detail=str(d)))
         for m in range(5):
             if d.get("mode%d_found_each_other" % m, 0) + d.get("mode%d_FAILED" % m, 0) <= 0:
                 c.broken.append(dict(kind="coverage", name="driver rendezvous ran no row of table %d" % m, detail=str(d)))
@@ -116,6 +127,11 @@ def recipe(c: Check):
              "it / followed by an immediate re-registration of the name; after Close has returned a pre-check and a correctly signed "
              "request for the closed proxy; events EvListen/EvProxyClose/EvDeliver/EvHandoverDone/EvLoopExit and observations of the "
              "session table, inboxes and registered names replayed through the model. "
+             "ownerctl driver: a real server.Control over a net.Pipe with a slow NewProxy server plugin; the owner announces an xtcp proxy "
+             "and disconnects while the registration is in flight (or after it): events EvNewProxy/EvCtlEnd, the registered names, a "
+             "pre-check and a signed request for the departed owner's proxy, re-registration of the name. rendezvous: every other row "
+             "and one pre-queued run use the EMPTY key (xtcp without secretKey); nathole driver: EncodeMessage/DecodeMessageInto round "
+             "trips for nil/empty/short/long/random keys. "
              "backlog driver: random histories of Send / drain / end-of-dispatcher on the real transport.NewMessageTransporter over "
              "queues of capacity 1-3, every observation (returned nil / dispatcher-ended error / still parked / released by a drain or "
              "by done) replayed through Model.NatHoleTr.tr_step; plus six sessions on a real Controller whose controls use real "
